@@ -14,8 +14,10 @@ EXTENDS Mutex, TraceLib
 VARIABLES l, drift, live
 tv == <<l, drift, live>>
 
+\* (-logsteps executions are always coarse: Fine = FALSE in the MCX configuration)
 XReset ==
-    /\ PReset
+    /\ PResetF(Fine)
+    /\ rres' = [p \in Procs |-> ""]
     /\ locked' = FALSE
     /\ wch' = [p \in Procs |-> "none"]
     /\ pc' = [p \in Procs |-> "idle"]
